@@ -27,6 +27,9 @@ ASSUMPTIONS = [
     'a truncated train counts as arriving when it is assembled (continuation packet or end of the 400-500 ms hold): the jitter, '
     'aggregation and one-second-protection windows are measured from that instant',
     'ties at one virtual instant are ordered by a global sequence number, never by timestamp',
+    '"saw multicast" is read from the wire: every response record that arrived on one of the host\'s sockets (its own multicasts loop '
+    'back), except in a datagram byte-identical to the previous one handled on that socket less than a second before (the '
+    'listener\'s documented duplicate guard)',
 ]
 BUDGET = {'quick': {'examples': 2500}, 'thorough': {'examples': 20000, 'shards': 16}}
 EPS = 2.0
